@@ -76,3 +76,33 @@ func VC11_LegacyWriteRead() {
 	vsym.AssertBytesEq([]byte(rec2.trace[0].path), wantPath, "the same file is read")
 	vsym.Reach("end")
 }
+
+// VC11_LegacySequence: the open mode of a write depends on that write's attributes only, not on
+// writes made earlier in the process (two writes with independent symbolic attribute masks).
+func VC11_LegacySequence() {
+	rec := &vFS{}
+	fs.SetFS(rec)
+	g := util.EFIGUID{Data1: vsym.U32("g.d1"), Data2: vsym.U16("g.d2"), Data3: vsym.U16("g.d3")}
+	a1, a2 := Attributes(vsym.U32("attrs1")), Attributes(vsym.U32("attrs2"))
+	v1, v2 := vsym.BytesN("value1", 3), vsym.BytesN("value2", 2)
+	if WriteEfivarsWithGuid("Aa", a1, v1, g) != nil || WriteEfivarsWithGuid("Bb", a2, v2, g) != nil {
+		vsym.Reach("probe-error")
+		return
+	}
+	var ops []vOp
+	for _, o := range rec.trace {
+		if o.op != "Close" {
+			ops = append(ops, o)
+		}
+	}
+	vsym.Assert(len(ops) == 4, "one open and one write per variable write")
+	for i, a := range []Attributes{a1, a2} {
+		wantFlags := os.O_WRONLY | os.O_CREATE
+		wantFlags = vsym.IteInt(a&EFI_VARIABLE_APPEND_WRITE != 0, wantFlags|os.O_APPEND, wantFlags)
+		vsym.Assert(ops[2*i].op == "OpenFile", "the file is opened with OpenFile")
+		vsym.Assert(ops[2*i].flag == wantFlags, "write-only, create, append iff this write's APPEND_WRITE")
+	}
+	u := uint32(a2)
+	vsym.AssertBytesEq(ops[3].buf, append([]byte{byte(u), byte(u >> 8), byte(u >> 16), byte(u >> 24)}, v2...), "second buffer is its attributes followed by its value")
+	vsym.Reach("end")
+}
